@@ -339,7 +339,7 @@ MX_TEXT = st.builds(lambda a, m, z: (a + m + z) or "x", st.sampled_from(_EDGE + 
 def _cfg(text, **kw):
     base = dict(groups=SG.plain_groups(bases=ALLB, max_dots=4, tuplet_bases=ALLB), meters=METERS, octaves=list(range(0, 9)), max_pitch=200,
                 min_pitch=-20, max_bars=3, max_groups=6, max_tracks=3, text=text, partial_last=True, rest_p=4, empty_containers=True,
-                instruments=["none", "generic", "midi"], twin_p=4, share_instruments=True, subclass_p=8, unsorted_p=5, twin_entry_p=4, reuse_p=5, equal_pitch_p=6)
+                instruments=["none", "generic", "midi"], twin_p=4, share_instruments=True, subclass_p=8, unsorted_p=5, twin_entry_p=4, reuse_p=5, equal_pitch_p=6, same_bar_p=4)
     base.update(kw)
     return SG.Cfg(**base)
 
@@ -388,6 +388,15 @@ def sub_mx(ctx, shard, n):
     ctx.given("mx_bar", check_mx_bar, SG.bar_st(cfgb) | SG.bar_st(cfgb, fill=False), 100 if ctx.quick else 1500)
     if shard == 0:
         ctx.enumerate("mx_bar", check_mx_bar, [{"key": k, "meter": [3, 4], "entries": []} for k in ("C", "eb", "F#")])
+        # bars mixing tuplet kinds with many-dotted short values: the common unit of all lengths (the measure's divisions) gets large
+        c4 = [["C", 4, 1, 64]]
+        mixes = []
+        for extra in ([[128, 4, 1, 1]], [[128, 3, 1, 1]], [[64, 4, 1, 1]], [[128, 4, 1, 1], [64, 3, 1, 1]], [[32, 4, 1, 1], [128, 2, 1, 1]]):
+            for tup in ([[64, 0, 5, 4], [64, 0, 7, 4]], [[128, 0, 5, 4], [128, 0, 7, 4], [128, 0, 3, 2]], [[32, 0, 3, 2], [64, 0, 5, 4], [16, 0, 7, 4]]):
+                ents = [{"v": v, "notes": [list(c4[0])]} for v in tup for _ in range(v[2])] + [{"v": v, "notes": None if i % 2 else [["E", 4, 2, 70]]} for i, v in enumerate(extra)]
+                mixes.append({"key": "G", "meter": [4, 4], "entries": ents + [{"v": [4, 1, 1, 1], "notes": [["G", 3, 1, 64], ["B", 3, 1, 64]]}]})
+        ctx.exhaustive("MusicXML bars mixing tuplet kinds with 2-4 dotted short values", "5 x 3", len(mixes))
+        ctx.enumerate("mx_bar", check_mx_bar, mixes)
 
 
 SUBS = [
